@@ -38,6 +38,7 @@ type ReplayResult struct {
 	Failures  []*Failure  `json:"failures"`
 	NFail     int         `json:"n_failures"`
 	NDrift    int         `json:"n_drift"`
+	NInconcl  int         `json:"n_inconclusive"`
 	Samples   []Behaviour `json:"samples"`
 }
 
@@ -146,6 +147,9 @@ func runReplay(comp string, r Replayer, opt *Options) error {
 					f.Behaviour = bs[idx]
 					if f.Kind == "drift" {
 						res.NDrift++
+					} else if f.Kind == "inconclusive" {
+						// the run could not be judged (e.g. the host stalled during a timed step): never a verdict
+						res.NInconcl++
 					} else {
 						f.Kind = "verdict"
 						res.NFail++
